@@ -66,6 +66,13 @@ var retryMu sync.Mutex
 // the given arguments under plan (nil = plain run, no VERIF_PLAN).
 func runGoderive(bin, dir string, args []string, plan *Plan, gomaxprocs int, extraEnv ...string) *genRun {
 	env := goEnv(extraEnv...)
+	// the simulated goderive runs with the user's defaults, not with the -mod=mod this harness needs
+	// to build things offline: whether go.mod may be touched is part of what is observed (C10)
+	for i, kv := range env {
+		if strings.HasPrefix(kv, "GOFLAGS=") {
+			env[i] = "GOFLAGS="
+		}
+	}
 	var tracePath string
 	if plan != nil {
 		pf, _ := os.CreateTemp(filepath.Dir(bin), "plan*.json")
@@ -234,12 +241,17 @@ func fileHash(p string) string {
 // typecheck loads the given package patterns (with tests) from the world
 // and returns the first few errors; also checks derived.gen.go is gofmt-clean.
 func typecheck(worldDir string, patterns ...string) []string {
-	return typecheckEnv(worldDir, goEnv(), patterns...)
+	if os.Getenv("VERIF_SLOW_TYPECHECK") != "" {
+		return typecheckEnv(worldDir, goEnv(), patterns...)
+	}
+	_, errs := typecheckWorld(worldDir, patterns...)
+	return errs
 }
 
 func typecheckEnv(worldDir string, env []string, patterns ...string) []string {
 	cfg := &packages.Config{
-		Mode:  packages.NeedName | packages.NeedFiles | packages.NeedSyntax | packages.NeedTypes | packages.NeedTypesInfo | packages.NeedImports | packages.NeedDeps,
+		// without NeedDeps the imports come from the build cache's export data instead of being type-checked from source on every call
+		Mode:  packages.NeedName | packages.NeedFiles | packages.NeedSyntax | packages.NeedTypes | packages.NeedTypesInfo | packages.NeedImports,
 		Dir:   worldDir,
 		Env:   env,
 		Tests: true,
